@@ -897,3 +897,17 @@ Section Typed.
         simpl in *. rewrite E. exact E2.
   Qed.
 End Typed.
+
+(* ------------------------------------------------------------------ map keys: numbers *)
+
+(* ValueKey equality on numbers is KNumber's PartialEq: same kind by value (f64 `==`), a mixed pair
+   through `a as f64 == b` *)
+Lemma key_equality_numbers : forall a b,
+    kv_eqb (KNum a) (KNum b) =
+    match a, b with
+    | NI x, NI y => x =? y
+    | NF x, NF y => f64_eqb x y
+    | NI x, NF y => f64_eqb (i64_to_f64 x) y
+    | NF x, NI y => f64_eqb x (i64_to_f64 y)
+    end.
+Proof. intros [x|x] [y|y]; reflexivity. Qed.
